@@ -30,6 +30,14 @@ POOL = [
     (f"RQ --- 30:111111 {CTL} --:------ 30C9 001 03", f"RP --- {CTL} 30:111111 --:------ 30C9 003 0307D0"),
 ]
 N_PLAIN = 9   # the first nine pool commands are sent in the gateway's own name
+# more commands in the gateway's own name, for long queues (`gen_jam`); appended so that the indices above stay put
+for _z in range(8):
+    POOL.append((f"RQ --- {HGI} {CTL} --:------ 000A 001 {_z:02X}", f"RP --- {CTL} {GWY} --:------ 000A 006 {_z:02X}1001F40DAC"))
+N_POOL_CLASSIC = 11       # gen_episode draws from the first eleven (nine plain + two impersonating)
+
+
+def is_plain(cmd: int) -> bool:
+    return cmd < N_PLAIN or cmd >= N_POOL_CLASSIC
 FOREIGN = [
     f" I --- {CTL} --:------ {CTL} 1F09 003 FF073F",
     f"RP --- {CTL} 18:999999 --:------ 2309 003 0007D0",       # same header as a reply, other gateway
@@ -126,7 +134,7 @@ def gen_episode(rnd: random.Random, fine: bool = True) -> Episode:
     for i in range(n_calls):
         t += rnd.choice((0.0, 0.0, 0.001, 0.3, 2.0))
         timeout = rnd.choice((20.0, 20.0, 5.0, 1.0, 0.5, 0.3, 0.5 + 5e-10, 1.5, 3.5 - 5e-10, 30.0)) if fine else rnd.choice((20.0, 5.0, 30.0))
-        e.calls.append({"t": t, "cmd": rnd.randrange(len(POOL)), "prio": rnd.choice((-2, 0, 0, 2, 4)),
+        e.calls.append({"t": t, "cmd": rnd.randrange(N_POOL_CLASSIC), "prio": rnd.choice((-2, 0, 0, 2, 4)),
                         "max_retries": rnd.choice((0, 1, 2, 3, 3, 5)), "timeout": timeout, "wfr": rnd.choice((None, None, True, False))})
     for c in {c["cmd"] for c in e.calls}:
         for n in range(1, 6):
@@ -167,6 +175,36 @@ def gen_coarse(rnd: random.Random) -> Episode:
             e.tx[(c, n)] = {"echo": echo, "reply": reply, "dup": rnd.random() < 0.15, "fail": rnd.random() < 0.07}
     for _ in range(rnd.choice((0, 0, 1, 2))):
         e.events.append((round(rnd.uniform(0.05, 9.0), 3) + 0.000377, rnd.choice(("conn_lost", "conn_lost_made", "foreign")), rnd.randrange(len(FOREIGN))))
+    return e
+
+
+def gen_jam(rnd: random.Random) -> Episode:
+    """A long queue behind a command whose echoes are lost: 4-9 callers of mixed priorities queue up, some give up while
+    still queued (at any position of the queue), further callers arrive afterwards.  All times on distinct
+    sub-millisecond offsets, every command distinct: the macro-step model applies exactly."""
+    e = Episode()
+    e.mode = rnd.choice((False, False, None))
+    plain = [i for i in range(len(POOL)) if is_plain(i) and i not in (5, 8)]     # (0418 / 0006 wait for replies by default)
+    n_early = rnd.randint(4, 9)
+    n_late = rnd.randint(1, 3)
+    pool = rnd.sample(plain, n_early + n_late + 1)
+    e.calls.append({"t": 0.0, "cmd": pool[0], "prio": rnd.choice((-2, 0, 0, 2)), "max_retries": rnd.choice((1, 2, 3, 3)),
+                    "timeout": 20.0, "wfr": None})
+    t = 0.0
+    same_prio = rnd.random() < 0.4
+    for i in range(n_early):
+        t += rnd.choice((0.0, 0.0, 0.0031, 0.0507)) + 0.0001 * (i + 1)
+        timeout = rnd.choice((20.0, 20.0, 30.0, round(rnd.uniform(0.2, 4.0), 3) + 0.000173, round(rnd.uniform(0.2, 9.0), 3) + 0.000173))
+        e.calls.append({"t": round(t, 6), "cmd": pool[1 + i], "prio": 0 if same_prio else rnd.choice((-2, 0, 0, 2, 4)),
+                        "max_retries": rnd.choice((0, 1, 3)), "timeout": timeout, "wfr": None})
+    for i in range(n_late):
+        e.calls.append({"t": round(rnd.uniform(0.6, 9.0), 3) + 0.000291 + 0.00001 * i, "cmd": pool[1 + n_early + i],
+                        "prio": 0 if same_prio else rnd.choice((-2, 0, 2, 4)), "max_retries": rnd.choice((0, 3)), "timeout": 20.0, "wfr": None})
+    k_lost = rnd.randint(1, 4)
+    for c in pool:
+        for n in range(1, 6):
+            lost = (c == pool[0] and n <= k_lost) or (c != pool[0] and rnd.random() < 0.25)
+            e.tx[(c, n)] = {"echo": None if lost else 0.0201, "reply": None if rnd.random() < 0.3 else 0.0509, "dup": False, "fail": False}
     return e
 
 
